@@ -23,6 +23,13 @@ WIDE_MODULE = """Relay DEFINITIONS AUTOMATIC TAGS ::= BEGIN
         c INTEGER (0..255) DEFAULT 7,
         d UTF8String DEFAULT " lead and trail "
     }
+    -- literals that continue on the next line (X.680 12.14.1: the white space around the line break is not part of the value)
+    note UTF8String ::= "abc
+            def"
+    key OCTET STRING ::= '0011
+            2233'H
+    R ::= SEQUENCE { t UTF8String DEFAULT "one
+                        two" }
 END
 """
 
